@@ -288,3 +288,60 @@ Proof.
   - exists (fun i t => mg U i t * nth t Sg 0), (mg V). intros i j _ _. unfold recon. now rewrite LS.
   - intros B HB. unfold frob2 at 1. rewrite EE. exact (eckart_young_contract d1 d2 (mg Mlast) S0 U0 V0 HC r B HB).
 Qed.
+
+(* ---------- Eckart-Young for an ORTHOGONAL (not normalised) decomposition M = sum_t a_t v_t^T, a_a . a_b = lam_a [a = b],
+   lam non-increasing (zero eigenvalues allowed): sum_{t>=k} lam_t <= ||M - B||_F^2.  Used for symeig_svd, where only the kept
+   eigenvalues are known to be positive. ---------- *)
+Lemma positive_prefix p (lam : nat -> R) :
+  (forall t, (t < p)%nat -> 0 <= lam t) -> (forall i j, (i <= j)%nat -> (j < p)%nat -> lam j <= lam i) ->
+  exists p', (p' <= p)%nat /\ (forall t, (t < p')%nat -> 0 < lam t) /\ (forall t, (p' <= t)%nat -> (t < p)%nat -> lam t = 0).
+Proof.
+  induction p as [|p IH]; intros H0 Hm.
+  - exists 0%nat. split; [lia | split; intros; lia].
+  - destruct IH as (p' & Hp' & Hpos & Hz); [intros; apply H0; lia | intros; apply Hm; lia |].
+    destruct (Rlt_dec 0 (lam p)) as [P|NP].
+    + exists (S p). split; [lia|]. split; [|intros; lia].
+      intros t Ht. assert (lam p <= lam t) by (apply Hm; lia). lra.
+    + exists p'. split; [lia | split; [exact Hpos|]]. intros t H1 H2.
+      destruct (Nat.eq_dec t p) as [->|Hn]; [pose proof (H0 p ltac:(lia)); lra | apply Hz; lia].
+Qed.
+
+Theorem eckart_young_orth m n p k (M A V B : nat -> nat -> R) (lam : nat -> R) :
+  (forall a b, (a < p)%nat -> (b < p)%nat -> rsum m (fun i => A i a * A i b) = if Nat.eqb a b then lam a else 0) ->
+  orthonormal_rows p n V ->
+  (forall i j, (i <= j)%nat -> (j < p)%nat -> lam j <= lam i) ->
+  (forall i j, (i < m)%nat -> (j < n)%nat -> M i j = rsum p (fun t => A i t * V t j)) ->
+  (exists X Y : nat -> nat -> R, forall i j, (i < m)%nat -> (j < n)%nat -> B i j = rsum k (fun t => X i t * Y t j)) ->
+  rsum (p - k) (fun t => lam (k + t)%nat) <= rsum m (fun i => rsum n (fun j => (M i j - B i j)^2)).
+Proof.
+  intros GA OV Hm HM HB.
+  assert (H0 : forall t, (t < p)%nat -> 0 <= lam t).
+  { intros t Ht. pose proof (GA t t Ht Ht) as E. rewrite Nat.eqb_refl in E. rewrite <- E.
+    apply rsum_nonneg; intros i _. nra. }
+  destruct (positive_prefix p lam H0 Hm) as (p' & Hp' & Hpos & Hz).
+  assert (AZ : forall t i, (p' <= t)%nat -> (t < p)%nat -> (i < m)%nat -> A i t = 0).
+  { intros t i H1 H2 Hi. pose proof (GA t t H2 H2) as E. rewrite Nat.eqb_refl, (Hz t H1 H2) in E.
+    rewrite (rsum_ext m _ (fun i => (A i t)^2)) in E by (intros; ring). exact (rsum_sq_zero m (fun i => A i t) E i Hi). }
+  set (s := fun t => sqrt (lam t)).
+  assert (SS : forall t, (t < p')%nat -> 0 < s t /\ s t * s t = lam t).
+  { intros t Ht. pose proof (Hpos t Ht). unfold s. split; [apply sqrt_lt_R0; lra | apply sqrt_sqrt; lra]. }
+  pose proof (eckart_young_fn m n p' k M (fun i t => A i t / s t) V B s) as EY.
+  assert (L : rsum (p' - k) (fun t => (s (k + t)%nat)^2) <= rsum m (fun i => rsum n (fun j => (M i j - B i j)^2))).
+  { apply EY.
+    - intros a b Ha Hb. destruct (SS a Ha) as [Pa Ea]. destruct (SS b Hb) as [Pb Eb].
+      rewrite (rsum_ext m _ (fun i => (/ s a * / s b) * (A i a * A i b))) by (intros; unfold Rdiv; ring).
+      rewrite rsum_scale, GA by lia. destruct (Nat.eqb_spec a b) as [->|]; [|ring]. rewrite <- Eb. field. lra.
+    - apply orthonormal_rows_sub with (r := p); [lia | exact OV].
+    - intros t Ht. left. apply (SS t Ht).
+    - intros i j Hij Hj. unfold s. apply sqrt_le_1_alt. apply Hm; lia.
+    - intros i j Hi Hj. rewrite (HM i j Hi Hj). replace p with (p' + (p - p'))%nat at 1 by lia. rewrite rsum_app.
+      rewrite (rsum_zero (p - p')) by (intros t Ht; rewrite AZ by (try exact Hi; lia); ring).
+      rewrite Rplus_0_r. apply rsum_ext; intros t Ht. destruct (SS t Ht) as [Pt _]. field. lra.
+    - exact HB. }
+  eapply Rle_trans; [|exact L]. apply Req_le.
+  destruct (le_lt_dec p' k) as [H|H].
+  - replace (p' - k)%nat with 0%nat by lia. cbn [rsum]. apply rsum_zero. intros t Ht. apply Hz; lia.
+  - replace (p - k)%nat with ((p' - k) + (p - p'))%nat by lia. rewrite rsum_app.
+    rewrite (rsum_zero (p - p')) by (intros t Ht; apply Hz; lia). rewrite Rplus_0_r.
+    apply rsum_ext; intros t Ht. destruct (SS (k + t)%nat ltac:(lia)) as [_ E]. rewrite <- E. ring.
+Qed.
